@@ -136,6 +136,8 @@ theorem c05_no_leak (cfg : Cfg) (env env' : Env) (r : Req) (ex : List (Str × St
 
 /-! ### C03: per-request CSRF cookies, any order of starts and completions -/
 
+namespace CsrfLogins
+
 /-- the browser's CSRF cookies: name ↦ login id -/
 abbrev CsrfJar := List (Str × Nat)
 
@@ -223,6 +225,8 @@ theorem c03_per_request_any_order (name : Nat → Str) (hinj : ∀ a b, name a =
     cookie (matching the property's restriction to per-request cookies) -/
 example : (runLogins (fun _ => "c".toList) [] [.start 1, .start 2, .complete 1]).2 = [] := by decide
 example : (runLogins (fun n => (toString n).toList) [] [.start 1, .start 2, .complete 2, .complete 1]).2 = [2, 1] := by decide
+
+end CsrfLogins
 
 /-! ### C14 corollaries at the callback and on refresh -/
 
